@@ -209,8 +209,9 @@ func c22NewEnv(dir string) *c22Env {
 	e.repo = &c22Repo{Repository: notification.NewSQLRepository(), failAt: -1}
 	e.pub = &c22Publisher{scripts: map[string][]bool{}, calls: map[string][]c22PubCall{}}
 	e.mw = verifx.Must(notification.NewStorageMiddleware(&c22Inner{delegator.Wrap(e.st.Storage)}, e.st.DB, e.repo, e.pub, "hist", time.Minute, notification.DispatcherConfig{}, nil))
-	database.SetVerifPointFunc(func(_ context.Context, name string, _ int) error {
-		if name != "tx.commit" {
+	database.SetVerifPointFunc(func(ctx context.Context, name string, _ int) error {
+		// only the transaction of the call under test (background tasks of the storage commit too)
+		if name != "tx.commit" || ctx.Value(c22OpCtxKey{}) == nil {
 			return nil
 		}
 		e.commit.mu.Lock()
@@ -223,6 +224,8 @@ func c22NewEnv(dir string) *c22Env {
 	})
 	return e
 }
+
+type c22OpCtxKey struct{}
 
 type c22Row struct{ id, dest, event string }
 
@@ -423,7 +426,9 @@ func c22HistCase(out *verifx.Out, e *c22Env, k int, r *verifx.Rng, ops []c22Op, 
 		var uploadID storage.UploadId
 		switch op.kind {
 		case "copy":
-			ensure("src/object")
+			// fresh source content, so that the copy changes the destination even if it was copied there before
+			_, err := e.st.Storage.PutObject(ctx, b, key("src/object"), nil, bytes.NewReader(body()), nil, nil)
+			verifx.Check(err)
 		case "delete", "deleteversion", "tagput", "putprecond":
 			ensure(op.key)
 		case "tagdel":
@@ -482,6 +487,7 @@ func c22HistCase(out *verifx.Out, e *c22Env, k int, r *verifx.Rng, ops []c22Op, 
 					out.Line("panic %s", verifx.HexS(fmt.Sprint(p)))
 				}
 			}()
+			ctx := context.WithValue(ctx, c22OpCtxKey{}, 1) // marks the call under test for the commit fault
 			switch op.kind {
 			case "put":
 				muts = []string{"put"}
@@ -799,7 +805,7 @@ func c22Scripts(r *verifx.Rng, n, max int) [][]bool {
 }
 
 func runC22(args []string) {
-	f := verifx.ParseFlags("c22", args, 400, 4000)
+	f := verifx.ParseFlags("c22", args, 400, 2500)
 	out := verifx.NewOut()
 	_ = os.RemoveAll(filepath.Join(f.Scratch, "c22")) // a leftover of an interrupted run
 	e := c22NewEnv(filepath.Join(f.Scratch, "c22"))
